@@ -1245,13 +1245,14 @@ impl UnifiedCommandExecutor {
             }
             
             KeyCommand::RenameNx { old_key, new_key } => {
-                use crate::storage::commands::strings::handle_rename;
-                let frames = vec![
-                    RespFrame::from_string("RENAMENX"),
-                    RespFrame::from_bytes(old_key),
-                    RespFrame::from_bytes(new_key),
-                ];
-                handle_rename(&self.storage, db, &frames)
+                if !self.storage.exists(db, &old_key)? {
+                    return Ok(RespFrame::error("ERR no such key"));
+                }
+                if self.storage.exists(db, &new_key)? {
+                    return Ok(RespFrame::Integer(0));
+                }
+                self.storage.rename(db, &old_key, new_key)?;
+                Ok(RespFrame::Integer(1))
             }
             
             KeyCommand::RandomKey => {
